@@ -95,6 +95,11 @@ def fault_enumeration(ctx, names, oracle_fns, faults=None, latencies=(0.0, 0.3),
                         # the same fault with the batch applied by the backend and only the answer lost
                         if not ctx.quick or (k + len(items)) % 3 == 0:
                             items.append((prog, dict(sc, faults_after_apply=[str(k)])))
+        # the checkpoint call succeeds, its answer is paginated, and fetching the next page fails
+        for k in range(1, min(ncalls, 6) + 1):
+            for pg in (0, 1):
+                items.append((prog, {"seed": rng.randrange(1 << 30), "resp_page": pg, "get_state_fault": k, "max_inv": 14,
+                                     "api_latency": latencies[k % len(latencies)]}))
     ex = run_campaign(ctx, items)
     ctx.notes["fault_positions"] = ctx.notes.get("fault_positions", 0) + len(items)
     for e in ex:
